@@ -364,4 +364,9 @@ inductive Accepts : State → List Ev → State → Prop
   | cons {s s' s'' : State} {e : Ev} {es : List Ev} :
       step s e = some s' → Accepts s' es s'' → Accepts s (e :: es) s''
 
+/-- run a concrete event list (for examples and the driver) -/
+def runTrace (s : State) : List Ev → Option State
+  | [] => some s
+  | e :: es => (step s e).bind (runTrace · es)
+
 end RpcVerif.K
